@@ -142,7 +142,7 @@ fn reference_outputs(d: &Directory, codec: u8) -> Option<(Vec<u8>, Vec<u8>)> {
 pub fn run(ctx: &mut Ctx) {
     let mut case = 0u64;
     // ---- 1. every composition of small None-encoded directories (read and write, sync and async)
-    let maxn = ctx.n(16, 20) as usize;
+    let maxn = ctx.n(16, 22) as usize;
     for n in 1..=maxn {
         // a valid directory encodes to 1 byte (empty) or at least 5 bytes (count + four columns)
         if (2..=4).contains(&n) {
@@ -181,7 +181,7 @@ pub fn run(ctx: &mut Ctx) {
     }
     ctx.extra("exhaustive_compositions_up_to_bytes", json!(maxn));
     // ---- 2. codec directories: every fixed chunk size, every two-part split, random compositions
-    for i in 0..ctx.n(24, 200) {
+    for i in 0..ctx.n(24, 600) {
         if ctx.mine(case) {
             ctx.begin(case);
             let mut rng = ctx.rng("c13.codec", i);
@@ -293,7 +293,7 @@ pub fn run(ctx: &mut Ctx) {
     }
     case += 1;
     // ---- 4. whole archives (with leaves, 4 codecs): fixed chunk sizes and random schedules, read and write
-    for i in 0..ctx.n(24, 600) {
+    for i in 0..ctx.n(24, 1500) {
         if ctx.mine(case) {
             ctx.begin(case);
             let mut rng = ctx.rng("c13.arch", i);
